@@ -205,8 +205,13 @@ def norm_inst(inst):
     i["feeds"] = feeds
     return i
 
+# failure kinds the specifications do not distinguish: a dangling symbolic link at an output path is "declared output not produced"
+MODEL_FAULT = {"dangling_link": "skip_output"}
+def model_faults(faults):
+    return {k: MODEL_FAULT.get(v, v) for k, v in (faults or {}).items()}
 def inst_json(inst):
-    return json.dumps(norm_inst(inst))
+    i = norm_inst(inst); i["faults"] = model_faults(i["faults"])
+    return json.dumps(i)
 
 def sig_of(ins, params):
     s = "-".join(ins)
